@@ -659,6 +659,10 @@ static const void *get_setup_template(long ch,long srate,
           float high=map[j+1];
           float del=(req-low)/(high-low);
           *base_setting=j+del;
+          /* single precision can round j+del up to the number of
+             mappings at the very top of the range; the tables hold
+             entries [0,mappings] and are read at [is] and [is+1] */
+          if(*base_setting>=mappings)*base_setting=mappings-.001;
         }
 
         return(setup_list[i]);
